@@ -18,6 +18,7 @@ async fn run_scenario(s: &Scenario, cfg: &str, cyclic: bool) -> (Vec<OpResult>, 
     if let Some(cap) = cfg.strip_prefix("db:") {
         let cap: u64 = cap.parse().unwrap();
         let disk = Shared::new();
+        disk.group_max.store(qv_harness::env_u64("QV_GROUP_MAX", 0), Ordering::SeqCst);
         let mut engine = open_db(&w, &disk, cap, 2).await;
         for (i, op) in s.ops.iter().enumerate() {
             if *op == Op::Restart {
@@ -200,6 +201,279 @@ fn f5() {
     std::process::exit(0);
 }
 
+/// C04 oracles on the real engine (public API only):
+///  pairs: a writer keeps I0 == I1 (two writes per session; every other session is dropped instead of
+///         committed); readers compute N0 = I0 - I1 + 1000*(I0 mod 7) style witnesses and must never see I0 != I1,
+///         and after each of its own commits the writer must read its own value back (F6);
+///  pinned: a tracked engine that stays alive must keep answering from its snapshot, the session must wait.
+fn c04(args: &[String]) {
+    let millis: u64 = args[0].parse().unwrap();
+    let readers: usize = args[1].parse().unwrap();
+    let mut prog = Program::default();
+    let i = |k| Node { kind: Kind::Input, idx: k };
+    let n = |k| Node { kind: Kind::Normal, idx: k };
+    // N0 = I0 - I1 computed through two separate queries N1 = I0, N2 = I1 (so a torn snapshot shows)
+    prog.exprs.insert(n(1), Expr::Read(i(0)));
+    prog.exprs.insert(n(2), Expr::Read(i(1)));
+    prog.exprs.insert(n(0), Expr::Add(Box::new(Expr::Read(n(1))), Box::new(Expr::Mul(Box::new(Expr::Const(-1)), Box::new(Expr::Read(n(2)))))));
+    prog.exprs.insert(n(3), Expr::Add(Box::new(Expr::Read(i(0))), Box::new(Expr::Const(1))));
+    let w = World::new(prog, 0);
+    let runtime = rt(4);
+    let out = runtime.block_on(async {
+        let engine = open_mem(&w).await;
+        { let mut s = engine.input_session().await; s.set_input(Var(0), 0).await; s.set_input(Var(1), 0).await; s.commit().await; }
+        let stop = Arc::new(AtomicBool::new(false));
+        let torn = Arc::new(AtomicU64::new(0));
+        let reads = Arc::new(AtomicU64::new(0));
+        let mut hs = Vec::new();
+        for _ in 0..readers {
+            let e = engine.clone(); let stop = stop.clone(); let torn = torn.clone(); let reads = reads.clone();
+            hs.push(tokio::spawn(async move {
+                while !stop.load(Ordering::Relaxed) {
+                    let t = e.clone().tracked().await;
+                    let d = query_node(&t, Node { kind: Kind::Normal, idx: 0 }).await;
+                    // also verify the query the writer reads back (a reader that runs at the new
+                    // timestamp over the old inputs would leave a stale verified value behind: F6)
+                    let n3 = query_node(&t, Node { kind: Kind::Normal, idx: 3 }).await;
+                    // the same tracked engine must keep seeing one snapshot
+                    let a = query_node(&t, Node { kind: Kind::Input, idx: 0 }).await;
+                    let b = query_node(&t, Node { kind: Kind::Input, idx: 1 }).await;
+                    if d != 0 || a != b || n3 != a + 1 { torn.fetch_add(1, Ordering::Relaxed); }
+                    reads.fetch_add(1, Ordering::Relaxed);
+                    drop(t);
+                    tokio::task::yield_now().await;
+                }
+            }));
+        }
+        let t0 = Instant::now();
+        let (mut sessions, mut stale) = (0u64, 0u64);
+        let mut k = 0i64;
+        while t0.elapsed() < Duration::from_millis(millis) {
+            k += 1;
+            {
+                let mut s = engine.input_session().await;
+                s.set_input(Var(0), k).await;
+                tokio::task::yield_now().await;
+                s.set_input(Var(1), k).await;
+                if k % 2 == 0 { s.commit().await; } else { drop(s); }   // a dropped session commits in the background
+            }
+            let t = engine.clone().tracked().await;
+            let v = query_node(&t, Node { kind: Kind::Normal, idx: 3 }).await;
+            drop(t);
+            sessions += 1;
+            if v != k + 1 { stale += 1; }
+        }
+        stop.store(true, Ordering::Relaxed);
+        for h in hs { let _ = h.await; }
+        // pinned snapshot
+        let pinned = engine.clone().tracked().await;
+        let before = query_node(&pinned, Node { kind: Kind::Input, idx: 0 }).await;
+        let e2 = engine.clone();
+        let writer = tokio::spawn(async move { let mut s = e2.input_session().await; s.set_input(Var(0), -5).await; s.set_input(Var(1), -5).await; s.commit().await; });
+        tokio::time::sleep(Duration::from_millis(100)).await;
+        let writer_waited = !writer.is_finished();
+        let during = query_node(&pinned, Node { kind: Kind::Normal, idx: 3 }).await;   // a query not computed before in this snapshot's epoch? (N3 was) -> still the snapshot's value
+        let during_i1 = query_node(&pinned, Node { kind: Kind::Input, idx: 1 }).await;
+        drop(pinned);
+        let progressed = tokio::time::timeout(Duration::from_secs(5), writer).await.is_ok();
+        let t = engine.clone().tracked().await;
+        let after = query_node(&t, Node { kind: Kind::Normal, idx: 3 }).await;
+        (sessions, stale, torn.load(Ordering::Relaxed), reads.load(Ordering::Relaxed), writer_waited, before, during, during_i1, progressed, after)
+    });
+    println!("{{\"sessions\":{},\"stale_after_own_commit\":{},\"torn_or_unstable_snapshots\":{},\"reader_rounds\":{},\"writer_waited_for_pinned_reader\":{},\"pinned_before\":{},\"pinned_during\":{},\"pinned_during_i1\":{},\"writer_progressed_after_drop\":{},\"after\":{}}}",
+        out.0, out.1, out.2, out.3, out.4, out.5, out.6, out.7, out.8, out.9);
+}
+
+/// C08: engine crash <seed> <n>: run a history on a db-backed engine over the logging in-memory
+/// store, then reopen an engine on EVERY prefix of the physical commit log and judge it: it opens,
+/// shows the inputs of some committed session, answers every query with the from-scratch value for
+/// those inputs, and stays usable (a further session + query).
+fn crash(args: &[String]) {
+    let seed: u64 = args[0].parse().unwrap();
+    let n: u64 = args[1].parse().unwrap();
+    let mut r = Rng::new(seed);
+    let runtime = rt(1);
+    let (mut prefixes, mut queries, mut empty, mut commits_total, mut execs_after) = (0u64, 0u64, 0u64, 0u64, 0u64);
+    let mut viol: Vec<String> = Vec::new();
+    let mut groups: HashMap<u64, u64> = HashMap::new();
+    for k in 0..n {
+        let g = GenCfg { max_nodes: 8, max_ops: 10, allow_fw: true, allow_proj: true, allow_ext: false, allow_group: true, restarts: true, cyclic: false };
+        let s = gen_scenario(&mut r, &g);
+        let cap = *r.pick(&[1u64, 2, 4, 64]);
+        let group_max = r.below(4);
+        *groups.entry(group_max).or_default() += 1;
+        let disk = Shared::new();
+        disk.group_max.store(group_max, Ordering::SeqCst);
+        // inputs after each session, in order
+        let mut snaps: Vec<HashMap<u32, i64>> = Vec::new();
+        let mut cur: HashMap<u32, i64> = HashMap::new();
+        let ok = runtime.block_on(async {
+            tokio::time::timeout(Duration::from_secs(30), async {
+                let w = World::new(s.prog.clone(), 0);
+                let mut engine = open_db(&w, &disk, cap, 2).await;
+                for op in &s.ops {
+                    if *op == Op::Restart { drop(engine); tokio::task::yield_now().await; engine = open_db(&w, &disk, cap, 2).await; }
+                    if let Op::Session { sets, .. } = op { for (v, x) in sets { cur.insert(*v, *x); } snaps.push(cur.clone()); }
+                    let _ = run_op(&engine, &w, op).await;
+                }
+                drop(engine);
+            }).await.is_ok()
+        });
+        if !ok { viol.push(format!("{{\"index\":{k},\"violation\":\"original run hung\",\"scenario\":{:?}}}", scenario_coq(&s))); continue; }
+        let total = disk.commits();
+        commits_total += total as u64;
+        let nodes: Vec<Node> = s.prog.exprs.keys().copied().collect();
+        let step = if total > 40 { total / 40 + 1 } else { 1 };
+        for cut in (0..=total).step_by(step) {
+            let pre = disk.prefix(cut);
+            let res = runtime.block_on(async {
+                tokio::time::timeout(Duration::from_secs(20), async {
+                    let w = World::new(s.prog.clone(), 0);
+                    let engine = open_db(&w, &pre, cap, 2).await;
+                    // which inputs does the store show?
+                    let mut shown: HashMap<u32, i64> = HashMap::new();
+                    for i in 0..s.n_inputs {
+                        let r = run_op(&engine, &w, &Op::Query(Node { kind: Kind::Input, idx: i })).await;
+                        if let Outcome::Value(v) = r.outcome { shown.insert(i, v); }
+                    }
+                    if shown.is_empty() { return Ok::<(u64, u64, bool), String>((0, 0, true)); }
+                    if !snaps.iter().any(|sn| *sn == shown) {
+                        return Err(format!("the store shows inputs {:?}, which no committed session produced", shown));
+                    }
+                    let (mut q, mut ex) = (0u64, 0u64);
+                    for nd in &nodes {
+                        let r = run_op(&engine, &w, &Op::Query(*nd)).await;
+                        q += 1; ex += r.events.iter().filter(|e| matches!(e, Event::Exec(_))).count() as u64;
+                        let want = oracle(&s.prog, &shown, &HashMap::new(), *nd, 0);
+                        match (&r.outcome, want) {
+                            (Outcome::Value(v), Some(wv)) if *v == wv => {}
+                            (o, wv) => return Err(format!("query {} after the crash gave {:?}, from-scratch for the shown inputs {:?} is {:?}", nd.short(), o, shown, wv)),
+                        }
+                    }
+                    // still usable: one more session and a query
+                    let mut next = shown.clone(); next.insert(0, 17);
+                    let _ = run_op(&engine, &w, &Op::Session { sets: vec![(0, 17)], refresh: false }).await;
+                    let last = *nodes.last().unwrap();
+                    let r = run_op(&engine, &w, &Op::Query(last)).await;
+                    let want = oracle(&s.prog, &next, &HashMap::new(), last, 0);
+                    if let (Outcome::Value(v), Some(wv)) = (&r.outcome, want) { if *v != wv { return Err(format!("after a further session query {} gave {} instead of {}", last.short(), v, wv)); } }
+                    else { return Err(format!("after a further session query {} gave {:?}", last.short(), r.outcome)); }
+                    drop(engine);
+                    Ok((q, ex, false))
+                }).await
+            });
+            prefixes += 1;
+            match res {
+                Err(_) => viol.push(format!("{{\"index\":{k},\"cut\":{cut},\"of\":{total},\"violation\":\"engine opened on the prefix hangs\",\"scenario\":{:?}}}", scenario_coq(&s))),
+                Ok(Err(e)) => viol.push(format!("{{\"index\":{k},\"cut\":{cut},\"of\":{total},\"cache\":{cap},\"group_max\":{group_max},\"violation\":{:?},\"scenario\":{:?}}}", e, scenario_coq(&s))),
+                Ok(Ok((q, ex, e))) => { queries += q; execs_after += ex; if e { empty += 1; } }
+            }
+            if viol.len() > 5 { break; }
+        }
+        if viol.len() > 5 { break; }
+    }
+    println!("{{\"histories\":{n},\"physical_commits\":{commits_total},\"prefixes_reopened\":{prefixes},\"empty_prefixes\":{empty},\"queries_after_crash\":{queries},\"executions_after_crash\":{execs_after},\"group_max_distribution\":\"{:?}\",\"violations\":[{}]}}",
+        groups, viol.join(","));
+}
+
+/// C05: engine cancel <seed> <n>: histories in which query futures are dropped after a random
+/// number of polls (the engine yields at every query), executors panic on request, and commit
+/// futures are dropped; every completed query is judged by the from-scratch oracle.
+fn cancel(args: &[String]) {
+    use std::task::Poll;
+    let seed: u64 = args[0].parse().unwrap();
+    let n: u64 = args[1].parse().unwrap();
+    let mut r = Rng::new(seed);
+    let runtime = rt(1);
+    let (mut cancelled, mut cancelled_pending, mut panics_injected, mut panics_seen, mut judged, mut commits_dropped) = (0u64, 0u64, 0u64, 0u64, 0u64, 0u64);
+    let mut viol: Vec<String> = Vec::new();
+    for k in 0..n {
+        let g = GenCfg { max_nodes: 9, max_ops: 12, allow_fw: true, allow_proj: true, allow_ext: false, allow_group: true, restarts: false, cyclic: false };
+        let s = gen_scenario(&mut r, &g);
+        let mut rr = r.fork();
+        let res = runtime.block_on(async {
+            tokio::time::timeout(Duration::from_secs(30), async {
+                let w = World::new(s.prog.clone(), 0);
+                let engine = open_mem_yielding(&w).await;
+                let mut inputs: HashMap<u32, i64> = HashMap::new();
+                let nodes: Vec<Node> = s.prog.exprs.keys().copied().collect();
+                let mut local = (0u64, 0u64, 0u64, 0u64, 0u64, 0u64);
+                for (i, op) in s.ops.iter().enumerate() {
+                    match op {
+                        Op::Session { sets, .. } => {
+                            let mut sess = engine.input_session().await;
+                            for (v, x) in sets { sess.set_input(Var(*v), *x).await; inputs.insert(*v, *x); }
+                            if rr.chance(1, 3) {
+                                // drop the commit future after a few polls: the session must still take effect
+                                let fut = sess.commit();
+                                tokio::pin!(fut);
+                                let polls = rr.below(3);
+                                for _ in 0..polls { if let Poll::Ready(_) = futures::poll!(fut.as_mut()) { break; } }
+                                local.5 += 1;
+                            } else { sess.commit().await; }
+                        }
+                        Op::Query(nd) => {
+                            // 1. maybe a cancelled attempt
+                            if rr.chance(1, 2) {
+                                let t = engine.clone().tracked().await;
+                                let victim = *rr.pick(&nodes);
+                                let polls = rr.below(25);
+                                {
+                                    let fut = query_node(&t, victim);
+                                    tokio::pin!(fut);
+                                    let mut done = false;
+                                    for _ in 0..polls { if let Poll::Ready(_) = futures::poll!(fut.as_mut()) { done = true; break; } }
+                                    local.0 += 1; if !done { local.1 += 1; }
+                                }
+                                drop(t);
+                                for _ in 0..rr.below(4) { tokio::task::yield_now().await; }
+                            }
+                            // 2. maybe an executor panic
+                            if rr.chance(1, 4) {
+                                let bad = *rr.pick(&nodes);
+                                w.panic_node.store(node_code(bad), Ordering::SeqCst);
+                                let r1 = run_op(&engine, &w, &Op::Query(*nd)).await;
+                                w.panic_node.store(u64::MAX, Ordering::SeqCst);
+                                local.2 += 1;
+                                let ran = r1.events.iter().any(|e| *e == Event::Exec(bad));
+                                match (&r1.outcome, ran) {
+                                    (Outcome::Panic(_), true) => { local.3 += 1; }
+                                    (Outcome::Value(_), false) => {}
+                                    (o, ran) => return Err(format!("step {i}: executor of {} set to panic, it ran = {ran}, but the query outcome was {:?}", bad.short(), o)),
+                                }
+                            }
+                            // 3. the real query, judged
+                            let r2 = run_op(&engine, &w, &Op::Query(*nd)).await;
+                            let want = oracle(&s.prog, &inputs, &HashMap::new(), *nd, 0);
+                            local.4 += 1;
+                            match (&r2.outcome, want) {
+                                (Outcome::Value(v), Some(wv)) if *v == wv => {}
+                                (o, wv) => return Err(format!("step {i}: query {} gave {:?} after cancelled/panicked work, from-scratch is {:?}", nd.short(), o, wv)),
+                            }
+                            for e in &r2.events {
+                                if let Event::Read { by, dep, value } = e {
+                                    if oracle(&s.prog, &inputs, &HashMap::new(), *dep, 0) != Some(*value) {
+                                        return Err(format!("step {i}: executor of {} was handed {}={} after cancelled/panicked work", by.short(), dep.short(), value));
+                                    }
+                                }
+                            }
+                        }
+                        _ => {}
+                    }
+                }
+                Ok(local)
+            }).await
+        });
+        match res {
+            Err(_) => viol.push(format!("{{\"index\":{k},\"violation\":\"no progress within 30 s after cancelled / panicked work\",\"scenario\":{:?}}}", scenario_coq(&s))),
+            Ok(Err(e)) => viol.push(format!("{{\"index\":{k},\"violation\":{:?},\"scenario\":{:?}}}", e, scenario_coq(&s))),
+            Ok(Ok(l)) => { cancelled += l.0; cancelled_pending += l.1; panics_injected += l.2; panics_seen += l.3; judged += l.4; commits_dropped += l.5; }
+        }
+        if viol.len() > 5 { break; }
+    }
+    println!("{{\"histories\":{n},\"cancelled_attempts\":{cancelled},\"cancelled_while_pending\":{cancelled_pending},\"panics_injected\":{panics_injected},\"panics_reached_caller\":{panics_seen},\"commit_futures_dropped\":{commits_dropped},\"queries_judged\":{judged},\"violations\":[{}]}}", viol.join(","));
+}
+
 fn main() {
     let args: Vec<String> = std::env::args().collect();
     if std::env::var("QV_PANIC_TRACE").is_err() { std::panic::set_hook(Box::new(|_| {})); }
@@ -212,6 +486,9 @@ fn main() {
         "f6" => f6(&args[2..]),
         "replay" => replay(&args[2..]),
         "f5" => f5(),
+        "c04" => c04(&args[2..]),
+        "crash" => crash(&args[2..]),
+        "cancel" => cancel(&args[2..]),
         m => panic!("unknown mode {m}"),
     }
 }
